@@ -286,3 +286,35 @@ def cache_histories(model):
     finally:
         shutil.rmtree(d, ignore_errors=True)
     return sorted(set(probs))[:8]
+
+
+def source_hash(model):
+    """NumPy cubes whose SHA-1 starts with 0, 00 and a non-zero digit: the hash the reader reports is the full 40-digit digest of the samples"""
+    import hashlib
+    from seismic_zfp.conversion import NumpyConverter
+    from seismic_zfp.read import SgzReader
+    probs = []
+    want = {'0': None, '00': None, 'x': None}
+    seed = 0
+    while any(v is None for v in want.values()) and seed < 4000:
+        cube = np.random.default_rng(seed).standard_normal((4, 4, 8)).astype(np.float32)
+        h = hashlib.sha1(cube.tobytes()).hexdigest()
+        k = '00' if h.startswith('00') else '0' if h.startswith('0') else 'x'
+        if want[k] is None:
+            want[k] = (cube, h)
+        seed += 1
+    d = _tmp()
+    with _quiet(), G.LibVersion('0.2.8'):
+        for k, v in want.items():
+            if v is None:
+                continue
+            cube, h = v
+            p = os.path.join(d, f'h{k}.sgz')
+            with NumpyConverter(cube) as c:
+                c.run(p, bits_per_voxel=8)
+            with SgzReader(p) as r:
+                got = r.get_source_data_hash()
+            if got != h:
+                probs.append(f'get_source_data_hash() = {got!r} but the SHA-1 of the source samples is {h!r}')
+    shutil.rmtree(d, ignore_errors=True)
+    return probs
